@@ -335,6 +335,8 @@ def verify(E, c, verbose=False):
                             names.add(n.id)
             cut['_auto_live'] = names
     work = [[]]
+    E.work = work
+    E.cur_res = res
     limit = c.max_paths or E.max_paths
     prefix = c.key
     # make sure every declared clause shows up as an obligation even if no path reaches it
@@ -438,6 +440,46 @@ def verify(E, c, verbose=False):
             if msg not in res.unsupported:
                 res.unsupported.append(msg)
         work.extend(E.pending)
+    ctl = E.fork_ctl
+    if ctl is not None:
+        import os as _os
+        ctl.wait_children()
+        if ctl.is_child:
+            try:
+                ctl.dump(dict(obligations=E.obligations, paths=res.paths, normal=res.normal, exceptional=res.exceptional,
+                              aborted=res.aborted, unsupported=res.unsupported, assumptions=E.assumptions_used,
+                              inlined=E.inlined, lib=E.lib_used, cut_stats=E.cut_stats))
+            finally:
+                try:
+                    ctl.sem.release()
+                except Exception:
+                    pass
+                _os._exit(0)
+        for d in ctl.collect():
+            res.paths += d['paths']
+            res.normal += d['normal']
+            res.exceptional += d['exceptional']
+            res.aborted += d['aborted']
+            for u in d['unsupported']:
+                if u not in res.unsupported:
+                    res.unsupported.append(u)
+            E.assumptions_used |= d['assumptions']
+            E.inlined |= d['inlined']
+            E.lib_used |= d['lib']
+            for k2, v2 in d['cut_stats'].items():
+                E.cut_stats[k2] = E.cut_stats.get(k2, 0) + v2
+            for oid, ob in d['obligations'].items():
+                mine = E.obligations.get(oid)
+                if mine is None:
+                    E.obligations[oid] = ob
+                    continue
+                mine.paths += ob.paths
+                mine.ms += ob.ms
+                mine.backends |= ob.backends
+                rank = {'discharged': 0, 'undecided': 1, 'refuted': 2}
+                if rank[ob.status] > rank[mine.status]:
+                    mine.status, mine.model, mine.detail, mine.havoced, mine.path = ob.status, ob.model, ob.detail, ob.havoced, ob.path
+        ctl.cleanup()
     if c.raises is not None and (prefix + '::raises_only') not in E.obligations and not res.unsupported:
         from .engine import Obligation
         ob = E.obligations[prefix + '::raises_only'] = Obligation(prefix + '::raises_only', 'exc_closure')
